@@ -441,3 +441,78 @@ def run(ctx):
     from .nonzero import nonzero_instances
     nonzero_instances(ctx, em, "R11.6", "every token-moving message the funding reply can emit has an amount that is provably non-zero on the emitting path", 2,
                       lambda ckey: ckey.startswith("PayFunding>"), "a zero transfer is rejected and the whole funding settlement reverts (no cumulative fraction, no new funding time)")
+
+    # ---------------------------------------------------------------- R11.9
+    # "the transfer to the insurance fund is capped only by the vault balance": wherever a funding-chain function sends
+    # either the requested amount X or the vault balance B, it sends the smaller one: B only under B <= X, X only under
+    # X <= B (or min(B, X)).  Swapped branches would drain the vault / overdraw it.
+    from .balance import is_balance_value
+    from .nonzero import movers_of
+    ctx.rule("R11.9", "a funding transfer that is capped at the vault balance sends min(balance, amount): the balance only when it is the smaller, the amount only when the balance covers it", 1)
+    movers = movers_of(ctx)
+    n9 = 0
+
+    def le_facts(fs):
+        """set of (smaller-or-equal, larger) normal-form pairs and strict pairs established by the path"""
+        le = set()
+        for (at, o) in fs:
+            if tag(at) != "op" or o not in (True, False) or len(kids(at)) != 2:
+                continue
+            nm = payload(at)[0]
+            l, r = N(ix, kids(at)[0]), N(ix, kids(at)[1])
+            if (nm, o) in (("lt", True), ("le", True), ("gt", False), ("ge", False)):
+                le.add((l, r))          # l < r, l <= r, !(l > r), !(l >= r)  =>  l <= r
+            if (nm, o) in (("gt", True), ("ge", True), ("lt", False), ("le", False)):
+                le.add((r, l))
+        return le
+
+    def capped(fn, m, inherited, depth, seen):
+        nonlocal n9
+        if fn.key in seen:
+            return
+        try:
+            ps = ix.ok_paths_at(fn, m)
+        except Exception:
+            return
+        # does this function send a balance value anywhere?
+        sends = []
+        for p in ps:
+            fs = set(inherited) | guards._own_facts(ix, p, m)
+            for e in p.events:
+                if e.target is None:
+                    continue
+                args2 = tuple(sym.subst(a, m) for a in e.args) if m else tuple(e.args)
+                if e.target.key in movers:
+                    sends.append((p, fs, ix.inline(args2[movers[e.target.key]]), e))
+                elif depth > 0 and model.constructs_submsg(ix, e.target):
+                    capped(e.target, ix.param_map(e.target, args2), fs, depth - 1, seen | {fn.key})
+        if not any(is_balance_value(ctx, a) or (tag(a) == "op" and payload(a)[0] == "min") for (_p, _fs, a, _e) in sends):
+            return
+        n9 += 1
+        bad = None
+        for (p, fs, a, e) in sends:
+            if tag(a) == "op" and payload(a)[0] == "min" and any(is_balance_value(ctx, k) for k in kids(a)):
+                continue
+            le = le_facts(fs)
+            na = N(ix, a)
+            if is_balance_value(ctx, a):
+                # B is sent: some X with B <= X must be known (the requested amount)
+                if not any(l == na and r != na for (l, r) in le):
+                    bad = bad or "the vault balance is sent on a path that does not establish balance <= requested amount"
+            else:
+                # X is sent: X <= B for a balance value B
+                okx = False
+                for (at, _o) in fs:
+                    for k in (kids(at) if tag(at) == "op" else ()):
+                        if is_balance_value(ctx, ix.inline(k)) and (na, N(ix, k)) in le:
+                            okx = True
+                if not okx:
+                    bad = bad or "the requested amount %s is sent on a path that does not establish amount <= vault balance" % norm.show(na)[:80]
+        ctx.inst("R11.9", "capped-at-balance:%s" % short_fn(fn), bad is None, fn.where(), bad or "%d sending paths: balance only when balance <= amount, amount only when amount <= balance" % len(sends))
+
+    for ckey in sorted(em.chains):
+        if ckey.startswith("PayFunding>"):
+            st9 = em.chains[ckey][-1]
+            capped(st9.fn, st9.m, (), 4, set())
+    if n9 == 0:
+        ctx.lost("R11.9", "the funding-chain function that sends the vault balance or the requested amount")
